@@ -623,7 +623,10 @@ func checkC15e2e(h *History, vs []*opView) {
 		}
 		bySubnet[sn] = append(bySubnet[sn], ev{v.o.SentAt, admitted, v})
 	}
-	slackT := us(rp.Net.ClientLatUs[1]-rp.Net.ClientLatUs[0]).Seconds() + 0.01
+	// the window is measured at the clients; admission happens one latency (for
+	// stream and QUIC listeners up to a few round trips of connection set-up
+	// and flow control) and possibly an injected stall later
+	slackT := us(rp.Net.ClientLatUs[1]-rp.Net.ClientLatUs[0]).Seconds() + 0.01 + stallSlack(h.P).Seconds() + 6*us(rp.Net.ClientLatUs[1]).Seconds()
 	for sn, l := range bySubnet {
 		sort.SliceStable(l, func(i, j int) bool { return l[i].at < l[j].at })
 		// bound: each admitted query costs at least 1
@@ -648,6 +651,12 @@ func checkC15e2e(h *History, vs []*opView) {
 			for _, e := range l {
 				if !e.admitted && len(e.v.o.Resps) > 0 {
 					h.S.Fail("C15", "victim-refused", "subnet %s sent only %d queries (burst %d) and op %d was refused: other subnets' traffic was charged to it", sn, len(l), burst, e.v.o.Op.Idx)
+				}
+				// refusal of the connection itself (stream listeners close it, the
+				// DoQ listener closes it with "overloaded"): nothing else fails in
+				// these runs (upstreams answer, no network faults)
+				if !e.admitted && len(e.v.o.Resps) == 0 && e.v.o.Sent && (strings.Contains(e.v.o.Err, "overloaded") || e.v.isStream && e.v.cr.PeerGoneAt > 0 && e.v.cr.PeerGoneAt < e.v.cr.OpenedAt+time.Second) {
+					h.S.Fail("C15", "victim-refused", "subnet %s sent only %d queries (burst %d) and the connection of op %d was refused (%s): other subnets' traffic was charged to it", sn, len(l), burst, e.v.o.Op.Idx, e.v.o.Err)
 				}
 			}
 		}
